@@ -475,6 +475,18 @@ fn ind(n: usize, out: &mut String) {
     }
 }
 
+/// does the statement, printed without braces, end in an `if` that has no else (dangling-else hazard)?
+fn ends_in_open_if(s: &S) -> bool {
+    match s {
+        S::If(_, _, None) => true,
+        S::If(_, _, Some(b)) => ends_in_open_if(b),
+        S::While(_, b) => ends_in_open_if(b),
+        S::For(_, _, _, b) => ends_in_open_if(b),
+        S::Label(_, st) => ends_in_open_if(st),
+        _ => false,
+    }
+}
+
 pub fn print_stmt(s: &S, lvl: usize, out: &mut String) {
     match s {
         S::Block(v) => {
@@ -504,7 +516,12 @@ pub fn print_stmt(s: &S, lvl: usize, out: &mut String) {
                     out.push_str("if (");
                     pe(c, 0, out);
                     out.push_str(")\n");
-                    print_stmt(a, lvl + 1, out);
+                    if b.is_some() && ends_in_open_if(a) {
+                        // the else below would attach to the inner if: braces keep the tree's meaning
+                        print_stmt(&S::Block(vec![(**a).clone()]), lvl + 1, out);
+                    } else {
+                        print_stmt(a, lvl + 1, out);
+                    }
                     if let Some(b) = b {
                         ind(lvl, out);
                         out.push_str("else\n");
